@@ -117,6 +117,7 @@ type Result struct {
 	Witness      map[string]int
 	Unsupported  map[string]int
 	Budget       map[string]int
+	Hangs        map[string]int // budget exhaustion on a path (candidate non-termination)
 	Inconclusive map[string]int
 	Coverage     map[string]int // repo function -> distinct instructions executed
 	Stubs        map[string]int // intrinsics / summaries hit
@@ -737,7 +738,7 @@ func Explore(pkg *ssa.Package, fn *ssa.Function, opt Options) *Result {
 		cov: map[*ssa.Function]map[ssa.Instruction]bool{}}
 	e.cond = sync.NewCond(&e.mu)
 	e.res = &Result{Harness: fn.Name(), Known: map[string]int{}, Witness: map[string]int{}, Unsupported: map[string]int{},
-		Budget: map[string]int{}, Inconclusive: map[string]int{}, Coverage: map[string]int{}, Stubs: map[string]int{}}
+		Budget: map[string]int{}, Hangs: map[string]int{}, Inconclusive: map[string]int{}, Coverage: map[string]int{}, Stubs: map[string]int{}}
 	e.queue = [][]Decision{{}}
 	var wg sync.WaitGroup
 	for k := 0; k < opt.Workers; k++ {
@@ -855,7 +856,10 @@ func (w *Worker) runPath(prefix []Decision) {
 				}
 				e.note(func(res *Result) { res.Unsupported[p.what+where]++ })
 			case budgetExceeded:
-				e.note(func(res *Result) { res.Budget[p.what]++ })
+				// a path that does not finish within the budget is a candidate hang: it is
+				// reported as a violation only if the native replay does not terminate either
+				e.note(func(res *Result) { res.Hangs[p.what]++ })
+				w.reportViolation("hang", "hang: "+p.what, nil, &frame{i: i})
 			case targetPanic:
 				msg := i.panicString(p.v)
 				w.reportViolation("panic", "panic: "+msg, nil, &frame{i: i})
